@@ -94,6 +94,11 @@ C13_PARTS = [
      "args": {"quick": {"T": 2, "PX": 2, "L": 3, "S": 2, "MaxNode": 3, "via": "df", "cap": 4},
               "thorough": {"T": 2, "PX": 2, "L": 3, "S": 2, "MaxNode": 3, "via": "df", "cap": 40}},
      "trace": {"module": "TraceRelabel.tla", "consts": _RL(2, 2, 3, 2, 3)}},
+    # the same with imported positions (the importer then validates the array against the graph first)
+    {"name": "relabel_dfpos", "driver": "relabel",
+     "args": {"quick": {"T": 2, "PX": 2, "L": 3, "S": 2, "MaxNode": 3, "via": "dfpos", "cap": 12},
+              "thorough": {"T": 2, "PX": 3, "L": 3, "S": 2, "MaxNode": 3, "via": "dfpos", "cap": 12}},
+     "trace": {"module": "TraceRelabel.tla", "consts": {"quick": _RL(2, 2, 3, 2, 3), "thorough": _RL(2, 3, 3, 2, 3)}}},
 ]
 
 C12_PARTS = [
@@ -108,6 +113,12 @@ C12_PARTS = [
                           "thorough": {"MaxRows": "3", "Fixes": tlc.tla_set(["F11"])}}}},
 ]
 
+C12_PARTS.append(
+    {"name": "import_geff", "driver": "import_geff",
+     "design": {"module": "GeffMap.tla", "invariants": ["Inv_Map"], "consts": {}},
+     "args": {"quick": {"graphs": 1}, "thorough": {"graphs": 2}},
+     "trace": {"module": "TraceGeffMap.tla", "consts": {}}})
+
 PROPS = {
     "C12": (C12_PARTS,
             "all node tables up to the stated number of rows: every id-name assignment (duplicates), every parent reference (none / any row / "
@@ -115,7 +126,8 @@ PROPS = {
             "identity and renamed columns with composite position and a custom column, and every dropped / dangling required mapping; "
             "non-trivial = malformed variant",
             ["payload values are small integers (float formatting and dtype coercion of arbitrary reals are not decided)",
-             "DataFrame entry point (tracks_from_df); the GEFF store entry point is exercised by C14's round trips"]),
+             "GEFF entry point: every ordered injective name map over three custom properties (plain, renamed, chained, swapped) on "
+             "stores with non-contiguous ids, a division and a skip edge; further GEFF coverage through C14's round trips"]),
     "C13": (C13_PARTS,
             "all label arrays (2 frames, labels 0..3 incl. an unlisted one) x all injective assignments (time, seg id) -> node id over ids 0..3 "
             "(reused labels across frames, label = another node's id, permutations, id 0); non-trivial = id 0 present or a node id equal to a seg id of another slot",
